@@ -15,33 +15,67 @@ from .. import tu, gen
 
 PROPERTY = "C09"
 VAL_C = 16                                              # value tolerance  VAL_C*eps*(|y| + vscale)
-RTOL = {"float64": 1e-9, "float32": 2 * math.sqrt(tu.EPS["float32"])}     # correctors (normwise, times cond)
+MONO_C = 4                                              # monotonicity on separated pairs: MONO_C*eps*(max|y| + vscale)
+MONO_GAP = 1e-3                                         # ... pairs x < y with y >= x(1 + MONO_GAP)
+# Corrector tolerances: every constant multiplies eps*cond_i (cond_i = 1 + |x rho''/rho'| + parameter sensitivity >= 3) and the
+# natural size of the quantity; they come from counting roundings (u = eps/2) in what the correctors compute:
+#   x^ = fl(sum R^2): rel. error <= d u <= 3 eps (d <= 6); g1^ = rho'(x^) evaluated by autograd in the dtype: x^ contributes
+#   |x rho''/rho'| 3 eps, the rounding of the parameters to the dtype psens*eps/2, the <= 8 operations of the derivative
+#   formula 4 eps (worst amplification 4: 1 + c cos(wx), c <= 0.8)  ->  rel. error of g1^ <= 4 cond eps; sqrt halves it.
+#   gradient  J'^T R' = g1^ (J^T R): + 2 u for the two scalings, + (d + 6) u for Triggs' (I - alpha R R^T/x) J and 1/(1-alpha)
+#   (alpha itself cancels: J'^T R' = rho'/(1-alpha) J^T (I - alpha P) R = rho' J^T R for ANY alpha)   -> <= 7 cond eps
+#   Triggs == FastTriggs rows: both sides sqrt(g1^) R, each (2 cond + 1) eps from sqrt(rho') R                 -> <= 5 cond eps
+#   Hessian  J'^T J' = g1^ J^T J + g1^ (s^ - 1)/x v v^T,  s^ = 1 + 2 x^ g2^/g1^:  (4 cond + 5 + d/2 + 4) eps on rho' amp |J|^2
+#   (amp = 1 + 2 x rho''/rho' = (1-alpha)^2), plus the error of g2^ itself, which is NOT relative: see D2 below  -> <= 14 cond eps
+C_G, C_S, C_H = 32, 16, 32
+# rho'' as the dtype sees it: rho''(x(1 +- T_X eps)) (x^ and the rounded parameters w, m inside sin(w x), x - m) plus the
+# cancellation noise C_N eps d2noise(x) of the twice-differentiated formula (measured: <= 1 eps d2noise for Tolerant)
+T_X, C_N = 8, 8
+# Finding F23 (found here, repaired in /repo by evaluating the kernel with softplus): in float32, autograd's second derivative of Tolerant's documented formula
+# b log(1 + exp((x-a)/b)) underflows/overflows in an intermediate (b/(1+E)^2 goes subnormal once |b| exp(-2(a-x)/|b|) <
+# 2^-126, i.e. (a-x)/|b| >~ 38..45 - inside the stated a/|b| <= 50) and rho'' comes out as garbage of either sign and of size
+# up to 1/|b| (true value -1e-20); Triggs then takes the rho''>0 branch and does not coincide with FastTriggs.  While the key
+# was listed below those rows were labelled and only their gradient was asserted; the set is empty now: they are asserted.
+KNOWN_OPEN = set()      # tolerant_f32_rho2_underflow: known_findings F23, repaired in /repo (b4656c4) - asserted
 RULE = ("values: kernel class x parameters (delta in [2e-3,1e3], half of them with a 10-bit mantissa so that delta^2 "
-        "and sqrt(delta^2) are exact in both dtypes; Tolerant a/|b| in [0.02,49.9]; Scale delta in (0,1]) x tensors of "
+        "and sqrt(delta^2) are exact in both dtypes; Tolerant a/|b| in [1e-3,50] incl. exactly 50; Scale delta in (0,1]) x tensors of "
         "rank 0..3 (extents 0..3) whose elements are drawn per class {0, tiny, EXACTLY the threshold T (delta^2, "
-        "1/delta^2, a), T(1+-2^k eps) k=0..12, T*10^[-4,4], up to 1e12}, float32/float64; oracle = documented closed "
+        "1/delta^2, a), T(1+-2^k eps) k=0..12, T*10^[-4,4], up to 1e12, the previous element x (1+10^[-3,0.5])}, float32/float64; oracle = documented closed "
         "form in 40-digit mpmath on the exact input values; |y-ref| <= 16 eps (|ref|+s) with s the size of the "
         "cancelling terms of the documented formula (delta^2; 2 for SoftLOne; 2(a+|b|) for Tolerant; 0 for Arctan/Scale), "
-        "finite, k(0)=0 to that tolerance, non-decreasing after sorting (same tolerance), same shape; Huber: autograd "
+        "finite, k(0)=0 to that tolerance, same shape; non-decreasing: adjacent elements after sorting (value tolerance) and "
+        "every pair x<y with y>=x(1+1e-3) within 4 eps (max|k|+s) (two faithfully rounded library calls); Huber: autograd "
         "slope == min(1, delta/sqrt(x)) within 16 eps at every element incl. the threshold.  reject: the same tensors "
-        "with >= 1 negative element (-tiny .. -1e12, -inf, any position): any exception passes, a returned tensor "
-        "fails.  correctors: kernel (7 built-ins; user nn.Modules with rho''>0: x+cx^2/2, expm1(cx), x log1p(x); "
+        "with >= 1 negative element (-tiny .. -1e12, -inf, any position): AssertionError (what the kernels raise) or "
+        "ValueError passes; any other exception type or a returned tensor fails.  correctors: kernel (7 built-ins; user "
+        "nn.Modules with rho''>0: x+cx^2/2, expm1(cx), x log1p(x); "
         "rho''=0: x, cx; rho''<0: log1p(cx)/c, sqrt(x+c)-sqrt(c); mixed sign: x+a((x-m)^3+m^3)/3, x+c sin(wx)/w, "
-        "x+c relu(x-m)^2/2) x R of shape (...,d), d=1..6, 1..8 rows of classes {0, |R|^2==T exactly, T(1+-2^k eps), "
-        "below T, above T, generic 1e-2..30 sqrt(T), tiny} x J=(R.numel(),P) P=1..4 with column scales 1e-2..1e2, called "
+        "x+c relu(x-m)^2/2) x R of shape (...,d), d=1..6, 1..8 rows (4% of quick / 10% of thorough cases: 9..16 / 9..40) of "
+        "classes {0, |R|^2==T exactly, T(1+-2^k eps), "
+        "below T, above T, generic 1e-2..30 sqrt(T), tiny} x J=(R.numel(),P) P=1..4 with column scales 1e-2..1e2, dense (~70% as drawn) or "
+        "with zero row blocks / zero scalar rows / a duplicated column (rank deficient) / a zero column, called "
         "under torch.no_grad() as optimizer.step does (2/3) or with grad enabled (1/3); "
         "oracle rho', rho'' from the harness's own closed forms (mpmath): J'^T R' == sum_i rho'_i J_i^T R_i for "
         "FastTriggs and Triggs; Triggs per row: J'_i^T J'_i == rho' J_i^T J_i + 2 rho'' J_i^T R_i R_i^T J_i where "
-        "rho''>0 and R_i!=0, (R'_i,J'_i) == FastTriggs's elsewhere (rows where the sign of rho'' changes within "
-        "x(1+-8 eps) accept either).  Tolerance: normwise rtol*cond_i*scale with rtol=1e-9 (float64), 2 sqrt(eps) "
-        "(float32), cond_i = 1+|x rho''/rho'|+parameter sensitivity.  Non-trivial: values/reject input containing a "
-        "zero or threshold-exact element (reject: always, classed by the negative entry); corrector case with >= 1 "
+        "rho''>0 and R_i!=0, (R'_i,J'_i) == FastTriggs's where rho''<=0 or R_i=0; rows where the sign of rho'' is not decided "
+        "in the dtype (it changes within x(1+-8 eps), or |rho''| <= 8 eps * the cancelling terms of the twice-differentiated "
+        "formula: Tolerant with exp(-(a-x)/|b|) < 16 eps) must have the Triggs Hessian for SOME rho'' in [0, max over that range].  "
+        "Tolerances: normwise C eps cond_i scale with C = 32 (gradient), 16 (rows equal to FastTriggs), 32 (Hessian, plus the "
+        "spread of rho'' over x(1+-8 eps)), cond_i = 1+|x rho''/rho'|+parameter sensitivity (derivation at the constants).  "
+        "descent: a linear residual model (1 or 2 residual blocks, (n,d) each) with a capturing solver inside pp.optim.GN / LM, "
+        "kernel single or one per block, corrector auto / FastTriggs / Triggs / mixed per block: the solved system's J'^T R' "
+        "(GN: -A^T b, LM: -b) == sum rho' J^T R (harness), autograd gradient of optimizer.model.loss == 2 J'^T R', and the loss "
+        "step() returns == sum_i rho(|R_i|^2) (harness closed forms).  Non-trivial: values/reject input containing a "
+        "zero or threshold-exact element (reject: always, classed by the negative entry); corrector / descent case with >= 1 "
         "row in each of {R=0, rho''>0, rho''<=0}.  distinct = (kernel, dtype, element/row class multiset, rank, d, P).")
 ASSUMPTIONS = ["kernel parameters in the documented domain (delta>0, a>0, b<0, a/|b|<=50, Scale delta in (0,1])",
                "inputs finite and non-negative (values), |R| <= 30 sqrt(T) (<= 3, 4.4 sqrt(T) for the exp / sine user "
                "kernels so that rho' stays finite and well conditioned)",
                "user kernels are elementwise nn.Modules, twice differentiable by autograd, with rho' >= 0",
-               "mpmath elementary functions at 40 digits are trusted; float64 numpy for the J^T R / J^T J sums"]
+               "mpmath elementary functions at 40 digits are trusted; float64 numpy for the J^T R / J^T J sums",
+               "torch's exp/log/atan are faithfully rounded (<= 1 ulp), sqrt correctly rounded (monotonicity tolerance)",
+               "descent: torch.autograd.functional / pypose modjac return the exact Jacobian M of the linear model M theta",
+               "float32 Triggs(Tolerant) rows with |b| exp(-2(a-x)/|b|) < 4*2^-126 (finding F23, repaired in /repo) are asserted like all others"]
 
 
 # ---------------------------------------------------------------------------------------------------
@@ -99,7 +133,9 @@ def kernel_spec(draw, families):
         k = draw(st.sampled_from(RK.BUILTIN))
         if k == "Tolerant":
             a = draw(st.one_of(_sq, st.floats(-3.0, 3.0).map(lambda v: 10.0 ** v)))
-            return {"k": k, "p": [a, -a / draw(st.floats(math.log(0.02), math.log(49.9)).map(math.exp))]}
+            ratio = draw(st.one_of(st.floats(math.log(1e-3), math.log(50.0)).map(math.exp), st.floats(math.log(0.02), math.log(50.0)).map(math.exp),
+                                   st.sampled_from((50.0, 49.0, 44.0, 40.0, 32.0, 1.0))))
+            return {"k": k, "p": [a, -a / min(ratio, 50.0)]}
         if k == "Scale":
             return {"k": k, "p": [draw(st.one_of(st.sampled_from((1.0, 0.5, 0.125)), st.floats(1e-3, 1.0)))]}
         return {"k": k, "p": [draw(_param)]}
@@ -179,7 +215,14 @@ class Values(Sub):
             dtype = draw(st.sampled_from(gen.DTYPES))
             shape = _shape(draw, (0, 1, 2, 3, 3))
             T = _thr(spec)
-            xs = [draw(xval(T, dtype)) for _ in range(int(np.prod(shape)))]
+            xs = []
+            for _ in range(int(np.prod(shape))):
+                v, c = draw(xval(T, dtype))
+                if xs and 0 < xs[-1][0] < 1e12 and draw(st.integers(0, 7)) == 0:
+                    # "sep": a moderately separated partner (relative gap 1e-3..3) of the previous element, wherever that lies -
+                    # in the flat parts of the kernels the monotonicity clause is the only one that sees an O(eps) defect
+                    v, c = gen.rnd(xs[-1][0] * (1 + 10.0 ** draw(st.floats(-3.0, 0.5))), dtype), "sep"
+                xs.append((v, c))
             return {"kernel": spec, "dtype": dtype, "shape": shape, "x": [v for v, _ in xs], "cls": [c for _, c in xs]}
         return s()
 
@@ -196,6 +239,9 @@ class Values(Sub):
                 xg = x.clone().requires_grad_(True)
                 slope, = torch.autograd.grad(mod(xg).sum(), xg)
         rec.label(k, dtype, *("x:" + c for c in sorted(set(case["cls"]))))
+        if k == "Tolerant":
+            ratio = spec["p"][0] / -spec["p"][1]
+            rec.label("tolerant:a/|b|<0.02" if ratio < 0.02 else "tolerant:a/|b|>=49.9" if ratio >= 49.9 else "tolerant:a/|b| in [0.02,49.9)")
         if k == "Huber" and any(float(v) ** 0.5 == spec["p"][0] and float(v) == spec["p"][0] ** 2 for v in tu.npy(x).reshape(-1)):
             rec.label("huber:sqrt(x)==delta exactly")
         if {"zero", "thr"} & set(case["cls"]):
@@ -233,6 +279,24 @@ class Values(Sub):
             rec.notes["r_monotone"] = max(rec.notes.get("r_monotone", 0), d / t)
             rec.check(d <= t, "monotone:" + key, lambda: "%s%s not non-decreasing: k(%r)=%r > k(%r)=%r"
                       % (k, spec["p"], xs[a], ys[a], xs[b], ys[b]))
+        # well separated pairs x < y, y >= x(1+1e-3): the value tolerance (16 eps of the cancelling terms, per value) would make
+        # this clause vacuous; what the documented formula can lose between two evaluations is the non-monotonicity of its
+        # library calls: exp / log / atan are faithful (<= 1 ulp of THEIR result, i.e. eps(|k| + s) after the final subtraction),
+        # everything else (fl(+,-,*,/), sqrt) is monotone; two evaluations -> 2 eps (|k| + s); MONO_C = 4.
+        npairs = 0
+        for ia in range(len(order)):
+            a = order[ia]
+            for b in order[ia + 1:]:
+                if not (xs[b] > xs[a] and xs[b] >= xs[a] * (1 + MONO_GAP)):
+                    continue
+                npairs += 1
+                d = ys[a] - ys[b]
+                t = MONO_C * eps * (max(abs(ys[a]), abs(ys[b])) + ref.vscale) + floor
+                rec.notes["r_monotone_sep"] = max(rec.notes.get("r_monotone_sep", 0), d / t)
+                rec.check(d <= t, "monotone_separated:" + key, lambda: "%s%s decreases between well separated inputs: k(%r)=%r > "
+                          "k(%r)=%r (difference %.3g > %.3g = 4 eps (max|k| + s))" % (k, spec["p"], xs[a], ys[a], xs[b], ys[b], d, t))
+        if npairs:
+            rec.label("monotone:separated pairs")
 
     def valid(self, case):
         return RK.in_domain(case["kernel"]) and all(0 <= v < math.inf for v in case["x"])
@@ -241,6 +305,9 @@ class Values(Sub):
         yield from _drop(case, "x", ("cls",))
         if case["dtype"] == "float32":
             yield dict(case, dtype="float64")
+
+
+REJECTIONS = (AssertionError, ValueError)       # kernel.py: `assert torch.all(input >= 0), ...`; ValueError = the same check spelled `raise`
 
 
 class Reject(Sub):
@@ -276,8 +343,13 @@ class Reject(Sub):
         rec.nt((k, dtype, case.get("neg"), min(n, 4), "first" if case.get("pos") == 0 else "last" if case.get("pos") == n - 1 else "mid"))
         try:
             out = mod(x)
-        except Exception as e:       # any exception is a rejection
+        except REJECTIONS as e:      # the kernels' own input check (assert ... 'input has to be non-negative')
             rec.label(k, dtype, "rejected:" + type(e).__name__)
+            return
+        except Exception as e:  # noqa  - an incidental error (TypeError, RuntimeError, IndexError ...) is a crash, not a rejection
+            rec.fail("rejects_with:%s:%s@%s" % (k, type(e).__name__, _frame_of(e)),
+                     "%s%s on the negative input %s raised %s (%s) instead of rejecting it with its input check "
+                     "(AssertionError 'input has to be non-negative')" % (k, spec["p"], case["x"], type(e).__name__, str(e)[:200]))
             return
         rec.fail("accepts_negative:" + k, "%s%s accepted the negative input %s and returned %s"
                  % (k, spec["p"], case["x"], tu.npy(out).reshape(-1).tolist() if isinstance(out, torch.Tensor) else out))
@@ -296,6 +368,77 @@ class Reject(Sub):
 
 # ---------------------------------------------------------------------------------------------------
 TMAX = {"exp": 3.0, "sine": 4.4}
+ROWCLS = ("zero", "thr", "near", "lo", "hi", "hi", "gen", "tiny")
+JMODES = ("dense",) * 11 + ("zero_blocks", "zero_blocks", "zero_lines", "zero_lines", "dup_col", "dup_col", "zero_col", "zero_col", "zero_all")
+TINY32 = float(np.finfo(np.float32).tiny)
+
+
+def _draw_rows(draw, spec, dtype, n, d, forced=()):
+    """n residual rows of dimension d (exact dtype values) drawn per class around the kernel's threshold sqrt(T)"""
+    eps = tu.EPS[dtype]
+    r0 = math.sqrt(_thr(spec))
+    tmax = TMAX.get(spec["k"], 30.0)
+    rows, cls = [], []
+    for i in range(n):
+        c = forced[i] if i < len(forced) else draw(st.sampled_from(ROWCLS))
+        v = [0.0] * d
+        if c in ("thr", "near"):
+            t = 1.0 if c == "thr" else 1 + draw(st.sampled_from((1.0, -1.0))) * eps * 2.0 ** draw(st.integers(0, 10))
+            v[draw(st.integers(0, d - 1))] = draw(st.sampled_from((1.0, -1.0))) * r0 * t
+        elif c != "zero":
+            t = {"lo": draw(st.floats(0.05, 0.95)), "hi": draw(st.floats(1.05, tmax)),
+                 "gen": 10.0 ** draw(st.floats(-2.0, math.log10(tmax))), "tiny": 10.0 ** -draw(st.integers(3, 12))}[c]
+            u = [draw(st.floats(-1, 1)) for _ in range(d)]
+            nu = math.sqrt(sum(a * a for a in u))
+            u = [a / nu for a in u] if nu > 1e-3 else [1.0] + [0.0] * (d - 1)
+            v = [r0 * t * a for a in u]
+        rows.append(gen.rnd_list(v, dtype)); cls.append(c)
+    return rows, cls
+
+
+def _shapes(n):
+    return [[n], [1, n], [n, 1]] + [[a, n // a] for a in (2, 3, 4, 5) if n % a == 0 and n > a] + ([[]] if n == 1 else []) \
+        + ([[2, 2, n // 4]] if n % 4 == 0 and n > 4 else [])
+
+
+def row_refs(ref, spec, Rn, dtype):
+    """Per row of Rn (n,d; exact dtype values) at x_i = |R_i|^2 (exact, mpmath): the harness's rho, rho', rho'', cond_i,
+    the interval [lo,hi] of the rho'' a dtype evaluation may see, and the class of the row:
+      zero | pos (lo > 0) | nonpos (hi <= 0) | ambig (sign not decided in the dtype; `why` = x: rho'' changes sign within
+      x(1 +- T_X eps); noise: |rho''| below the cancellation noise of the twice-differentiated formula) | open (KNOWN_OPEN)"""
+    eps, n = tu.EPS[dtype], len(Rn)
+    o = {k: np.zeros(n) for k in ("x", "rho", "r1", "r2", "cond", "lo", "hi")}
+    o["cls"], o["why"], o["thr_exact"] = [], [], 0
+    with mp.workdps(RK.DPS):
+        for i in range(n):
+            x = mp.fsum(mp.mpf(float(v)) ** 2 for v in Rn[i])
+            d1, d2 = ref.d1(x), ref.d2(x)
+            o["x"][i], o["rho"][i], o["r1"][i], o["r2"][i] = float(x), float(ref.rho(x)), float(d1), float(d2)
+            o["cond"][i] = 1 + (float(abs(x * d2 / d1)) if d1 > 0 else 0.0) + ref.psens(x)
+            o["thr_exact"] += int(x == ref.T)
+            if x == 0:
+                o["cls"].append("zero"); o["why"].append(""); o["lo"][i] = o["hi"][i] = float(d2)
+                continue
+            vlo, vhi = ref.d2_span(x, T_X * eps)
+            nz = mp.mpf(C_N * eps) * mp.mpf(ref.d2noise(x))
+            lo, hi = vlo - nz, vhi + nz
+            o["lo"][i], o["hi"][i] = float(lo), float(hi)
+            c = "pos" if lo > 0 else "nonpos" if hi <= 0 else "ambig"
+            why = ("x" if not (vlo > 0 or vhi <= 0) else "noise") if c == "ambig" else ""
+            if spec["k"] == "Tolerant" and dtype == "float32":
+                a, b = ref.p
+                if abs(b) * mp.exp(-2 * (a - x) / abs(b)) < 4 * TINY32:
+                    c, why = "open", "tolerant_f32_rho2_underflow"
+            o["cls"].append(c); o["why"].append(why)
+    return o
+
+
+def grad_ref(rr, Rn, Jn, eps, tiny, extra=0.0):
+    """sum_i rho'_i J_i^T R_i in float64 and its tolerance  (C_G cond_i + extra) eps rho'_i |R_i| |J_i[:,p]|  (normwise per row)"""
+    rn, jn = np.sqrt((Rn ** 2).sum(1)), np.sqrt((Jn ** 2).sum(1))           # |R_i|, column norms of J_i  (n,P)
+    g = np.einsum("i,idp,id->p", rr["r1"], Jn, Rn)
+    tol = eps * np.einsum("i,i,ip->p", (C_G * rr["cond"] + extra) * rr["r1"], rn, jn) + tiny * (1 + np.einsum("i,ip->p", rn, jn))
+    return g, tol
 
 
 class Correctors(Sub):
@@ -308,64 +451,73 @@ class Correctors(Sub):
         def s(draw):
             spec = draw(kernel_spec(("builtin", "builtin", "pos", "pos", "mixed", "mixed", "mixed", "lin", "neg")))
             dtype = draw(st.sampled_from(gen.DTYPES))
-            eps = tu.EPS[dtype]
             d = draw(st.integers(1, 6))
             mixed = RK.family(spec) == "mixed"
-            n = draw(st.integers(3 if mixed else 1, 8))
-            shape = draw(st.sampled_from([[n], [1, n], [n, 1]] + [[a, n // a] for a in (2, 3, 4) if n % a == 0 and n > a]
-                                         + ([[]] if n == 1 else [])))
+            if draw(st.integers(0, 99)) < (4 if tier == "quick" else 10):          # many rows: a small share (mpmath per row)
+                n = draw(st.integers(9, 16 if tier == "quick" else 40))
+            else:
+                n = draw(st.integers(3 if mixed else 1, 8))
+            shape = draw(st.sampled_from(_shapes(n)))
             forced = list(draw(st.permutations(("zero", "lo", "hi")))) if mixed and draw(st.booleans()) else []
-            r0 = math.sqrt(_thr(spec))
-            tmax = TMAX.get(spec["k"], 30.0)
-            rows, cls = [], []
-            for i in range(n):
-                c = forced[i] if i < len(forced) else draw(st.sampled_from(("zero", "thr", "near", "lo", "hi", "hi", "gen", "tiny")))
-                v = [0.0] * d
-                if c in ("thr", "near"):
-                    t = 1.0 if c == "thr" else 1 + draw(st.sampled_from((1.0, -1.0))) * eps * 2.0 ** draw(st.integers(0, 10))
-                    v[draw(st.integers(0, d - 1))] = draw(st.sampled_from((1.0, -1.0))) * r0 * t
-                elif c != "zero":
-                    t = {"lo": draw(st.floats(0.05, 0.95)), "hi": draw(st.floats(1.05, tmax)),
-                         "gen": 10.0 ** draw(st.floats(-2.0, math.log10(tmax))), "tiny": 10.0 ** -draw(st.integers(3, 12))}[c]
-                    u = [draw(st.floats(-1, 1)) for _ in range(d)]
-                    nu = math.sqrt(sum(a * a for a in u))
-                    u = [a / nu for a in u] if nu > 1e-3 else [1.0] + [0.0] * (d - 1)
-                    v = [r0 * t * a for a in u]
-                rows.append(gen.rnd_list(v, dtype)); cls.append(c)
+            rows, cls = _draw_rows(draw, spec, dtype, n, d, forced)
             return {"kernel": spec, "dtype": dtype, "shape": shape, "R": rows, "cls": cls,
                     "P": draw(st.integers(1, 4)), "seed": draw(st.integers(0, 2 ** 31 - 1)),
-                    "nograd": draw(st.sampled_from((True, True, False)))}
+                    "nograd": draw(st.sampled_from((True, True, False))), "jmode": JMODES[draw(st.integers(0, len(JMODES) - 1))]}
         return s()
+
+    @staticmethod
+    def jacobian(case, n, d):
+        """J (n*d, P) as float64 numpy, a pure function of the case: dense Gaussian with column scales 1e-2..1e2, then the
+        structure of case['jmode'] (zero row blocks, zero scalar rows, duplicated column, zero column, all zero)"""
+        P, mode = case["P"], case.get("jmode", "dense")
+        rs = np.random.RandomState(case["seed"])
+        J = rs.randn(n * d, P) * 10.0 ** rs.uniform(-2, 2, size=(1, P))
+        if mode == "zero_blocks":                       # the model does not depend on the parameters in some residual rows
+            z = rs.rand(n) < 0.5
+            z[rs.randint(n)] = True
+            J[np.repeat(z, d)] = 0.0
+        elif mode == "zero_lines":
+            z = rs.rand(n * d) < 0.5
+            z[rs.randint(n * d)] = True
+            J[z] = 0.0
+        elif mode == "dup_col":                         # rank deficient: last column = -2 x first (P = 1: nothing to duplicate)
+            if P > 1:
+                J[:, -1] = -2.0 * J[:, 0]
+        elif mode == "zero_col":
+            J[:, rs.randint(P)] = 0.0
+        elif mode == "zero_all":
+            J[:] = 0.0
+        return J
 
     def oracle(self, case, rec):
         spec, dtype, P = case["kernel"], case["dtype"], case["P"]
         k, fam = spec["k"], RK.family(spec)
-        eps, rtol = tu.EPS[dtype], RTOL[dtype]
+        eps = tu.EPS[dtype]
         tiny = 64 * float(np.finfo(np.dtype(dtype)).tiny)
         mod, ref = build(spec)
         n, d = len(case["R"]), len(case["R"][0])
         R = tu.tens(case["R"], dtype).reshape(list(case["shape"]) + [d])
-        rs = np.random.RandomState(case["seed"])
-        J = tu.tens((rs.randn(n * d, P) * 10.0 ** rs.uniform(-2, 2, size=(1, P))).tolist(), dtype)
+        J = tu.tens(self.jacobian(case, n, d).tolist(), dtype)
         Rn, Jn = tu.npy(R).reshape(n, d), tu.npy(J).reshape(n, d, P)
         # --- the harness's own rho', rho'' at x_i = |R_i|^2 (exact squares of the dtype values) ---------------
-        r1, r2, cond, rcls = np.zeros(n), np.zeros(n), np.zeros(n), []
-        with mp.workdps(RK.DPS):
-            for i in range(n):
-                x = mp.fsum(mp.mpf(float(v)) ** 2 for v in Rn[i])
-                d1, d2 = ref.d1(x), ref.d2(x)
-                r1[i], r2[i] = float(d1), float(d2)
-                cond[i] = 1 + (float(abs(x * d2 / d1)) if d1 > 0 else 0.0) + ref.psens(x)
-                rcls.append("zero" if x == 0 else ref.curv_class(x, 8 * eps))
-                if x == ref.T:
-                    rec.label("row:|R|^2==T exactly")
-        xs = (Rn ** 2).sum(1)
-        rn, jn = np.sqrt(xs), np.sqrt((Jn ** 2).sum(1))                  # |R_i|, column norms of J_i  (n,P)
-        g_ref = np.einsum("i,idp,id->p", r1, Jn, Rn)
-        g_tol = rtol * np.einsum("i,i,ip->p", cond * r1, rn, jn) + tiny * (1 + np.einsum("i,ip->p", rn, jn))
-        rec.label(k, fam, dtype, *("row:" + c for c in sorted(set(rcls))), *("gen:" + c for c in sorted(set(case["cls"]))))
+        rr = row_refs(ref, spec, Rn, dtype)
+        r1, r2, cond, rcls, xs = rr["r1"], rr["r2"], rr["cond"], rr["cls"], rr["x"]
+        if rr["thr_exact"]:
+            rec.label("row:|R|^2==T exactly")
+        rn = np.sqrt((Rn ** 2).sum(1))
+        g_ref, g_tol = grad_ref(rr, Rn, Jn, eps, tiny)
+        rec.label(k, fam, dtype, "J:" + case.get("jmode", "dense"), "n:1-8" if n <= 8 else "n:9-16" if n <= 16 else "n:17-40",
+                  *("row:" + c for c in sorted(set(rcls))), *("row:ambig:" + w for c, w in set(zip(rcls, rr["why"])) if c == "ambig"),
+                  *("gen:" + c for c in sorted(set(case["cls"]))))
+        if k == "Tolerant":
+            ratio = spec["p"][0] / -spec["p"][1]
+            rec.label("tolerant:a/|b|<0.02" if ratio < 0.02 else "tolerant:a/|b|>=38" if ratio >= 38 else "tolerant:a/|b| in [0.02,38)")
+        if (np.abs(Jn).sum((1, 2)) == 0).any():
+            rec.label("J:some row block zero")
+        if P > 1 and np.linalg.matrix_rank(Jn.reshape(n * d, P)) < min(P, n * d):
+            rec.label("J:rank deficient")
         if {"zero", "pos", "nonpos"} <= set(rcls):
-            rec.nt((k, dtype, tuple(sorted(rcls)), tuple(sorted(set(case["cls"]))), d, P, len(case["shape"])))
+            rec.nt((k, dtype, tuple(sorted(rcls))[:12], tuple(sorted(set(case["cls"]))), d, P, len(case["shape"]), case.get("jmode", "dense")))
         out = {}
         for cname in ("FastTriggs", "Triggs"):
             with _sut(rec, cname, fam if fam != "builtin" else k), torch.set_grad_enabled(not case.get("nograd", True)):
@@ -391,30 +543,54 @@ class Correctors(Sub):
         (Rf, Jf), (Rt, Jt) = out["FastTriggs"], out["Triggs"]
         for i in range(n):
             jf2 = float((Jn[i] ** 2).sum())
+            jf = math.sqrt(jf2)
             sq = math.sqrt(r1[i])
-            eR = float(np.abs(Rt[i] - Rf[i]).max()) / (rtol * cond[i] * sq * rn[i] + tiny * (1 + rn[i]))
-            eJ = float(np.abs(Jt[i] - Jf[i]).max()) / (rtol * cond[i] * sq * math.sqrt(jf2) + tiny * (1 + math.sqrt(jf2)))
+            eR = float(np.abs(Rt[i] - Rf[i]).max()) / (C_S * eps * cond[i] * sq * rn[i] + tiny * (1 + rn[i]))
+            eJ = float(np.abs(Jt[i] - Jf[i]).max()) / (C_S * eps * cond[i] * sq * jf + tiny * (1 + jf))
             H = Jt[i].T @ Jt[i]
             v = Jn[i].T @ Rn[i]
-            H_ref = r1[i] * Jn[i].T @ Jn[i] + 2 * r2[i] * np.outer(v, v)
-            amp = 1 + 2 * xs[i] * max(r2[i], 0.0) / r1[i] if r1[i] > 0 else 1.0
-            eH = float(np.abs(H - H_ref).max()) / (rtol * cond[i] * r1[i] * amp * jf2 + tiny * (1 + jf2))
-            if rcls[i] == "pos":
+            vv = np.outer(v, v)
+            B = H - r1[i] * Jn[i].T @ Jn[i]                         # must be 2 rho'' v v^T
+
+            def tolH(r2v, spread):
+                """C_H eps cond rho' amp |J_i|^2 (amp = 1 + 2 x rho''/rho') + the part of rho'' that is not a relative error:
+                2 spread |v|^2 <= 2 spread x |J_i|^2, spread = how far the rho'' seen in the dtype may be from rho''(x)"""
+                amp = 1 + 2 * xs[i] * max(r2v, 0.0) / r1[i] if r1[i] > 0 else 1.0
+                return C_H * eps * cond[i] * r1[i] * amp * jf2 + 2 * spread * xs[i] * jf2 + tiny * (1 + jf2)
+            ci = rcls[i]
+            if ci == "open" and rr["why"][i] not in KNOWN_OPEN:
+                ci = "nonpos"                                   # rho'' < 0 there: the property's "coincides with FastTriggs"
+            if ci == "pos":
+                spread = max(rr["hi"][i] - r2[i], r2[i] - rr["lo"][i])
+                eH = float(np.abs(B - 2 * r2[i] * vv).max()) / tolH(r2[i], spread)
                 rec.notes["r_hessian:" + dtype] = max(rec.notes.get("r_hessian:" + dtype, 0), eH)
                 rec.check(eH <= 1, "hessian:Triggs:%s:%s" % (fam, dtype),
                           lambda: "Triggs(%s%s) row %d (R_i=%s, rho'=%.6g, rho''=%.6g>0): J'_i^T J'_i = %s, expected rho' J^T J + "
-                          "2 rho'' J^T R R^T J = %s (error/tol %.3g)" % (k, spec["p"], i, Rn[i].tolist(), r1[i], r2[i],
-                                                                          H.tolist(), H_ref.tolist(), eH))
-            elif rcls[i] in ("zero", "nonpos"):
+                          "2 rho'' J^T R R^T J = %s (error/tol %.3g)" % (k, spec["p"], i, Rn[i].tolist(), r1[i], r2[i], H.tolist(),
+                                                                          (r1[i] * Jn[i].T @ Jn[i] + 2 * r2[i] * vv).tolist(), eH))
+            elif ci in ("zero", "nonpos"):
                 rec.notes["r_same:" + dtype] = max(rec.notes.get("r_same:" + dtype, 0), eR, eJ)
                 rec.check(eR <= 1 and eJ <= 1, "same_as_fast:%s:%s" % (fam, dtype),
                           lambda: "Triggs(%s%s) row %d (R_i=%s, rho''=%.6g, class %s) differs from FastTriggs: R' %s vs %s "
                           "(error/tol %.3g), J' error/tol %.3g" % (k, spec["p"], i, Rn[i].tolist(), r2[i], rcls[i],
                                                                   Rt[i].tolist(), Rf[i].tolist(), eR, eJ))
-            else:                   # rho'' changes sign within rounding of x: either form is right
-                rec.check(eH <= 1 or (eR <= 1 and eJ <= 1), "ambiguous_row:%s:%s" % (fam, dtype),
-                          lambda: "Triggs(%s%s) row %d (R_i=%s): neither the Triggs Hessian (error/tol %.3g) nor FastTriggs "
-                          "(%.3g, %.3g)" % (k, spec["p"], i, Rn[i].tolist(), eH, eR, eJ))
+            elif ci == "open":
+                rec.label("row:open:%s:%s" % (rr["why"][i], "coincides" if eR <= 1 and eJ <= 1 else "DIFFERS from FastTriggs"))
+            else:
+                # the sign of rho'' is not decided in the dtype (see row_refs): pypose may have seen any rho'' in [lo, hi]; where
+                # it saw rho'' <= 0 it must have taken FastTriggs's form (= the Triggs Hessian with rho'' = 0).  So: the row's
+                # Hessian must be rho' J^T J + 2 q v v^T for SOME q in [0, max(hi, 0)]  (least-squares q, clipped)
+                # (R'_i itself is not compared: with a noise-level rho'' > 0 Triggs's row differs from FastTriggs's by alpha ~ x rho''/rho';
+                # it is constrained through J'^T R' above)
+                hi = max(rr["hi"][i], 0.0)
+                den = 2 * float((vv ** 2).sum())
+                q = min(max(float((B * vv).sum()) / den, 0.0), hi) if den > 0 and math.isfinite(den) else 0.0
+                eH = float(np.abs(B - 2 * q * vv).max()) / tolH(q, 0.0)
+                rec.notes["r_ambig:" + dtype] = max(rec.notes.get("r_ambig:" + dtype, 0), eH)
+                rec.check(eH <= 1, "ambiguous_row:%s:%s" % (fam, dtype),
+                          lambda: "Triggs(%s%s) row %d (R_i=%s, rho'' in [%.3g, %.3g] at dtype resolution): J'_i^T J'_i - rho' J^T J = %s "
+                          "is not 2 q J^T R R^T J for any q in [0, %.3g] (best q %.3g, error/tol %.3g; FastTriggs R' %.3g, J' %.3g)"
+                          % (k, spec["p"], i, Rn[i].tolist(), rr["lo"][i], rr["hi"][i], B.tolist(), hi, q, eH, eR, eJ))
 
     def valid(self, case):
         r0 = math.sqrt(_thr(case["kernel"])) if RK.in_domain(case["kernel"]) else 0.0
@@ -428,6 +604,8 @@ class Correctors(Sub):
                 yield dict(case, shape=[n - 1], R=case["R"][:i] + case["R"][i + 1:], cls=case["cls"][:i] + case["cls"][i + 1:])
         if len(case["shape"]) > 1:
             yield dict(case, shape=[n])
+        if case.get("jmode", "dense") != "dense":
+            yield dict(case, jmode="dense")
         if case["P"] > 1:
             yield dict(case, P=1)
         for j in range(d):
@@ -439,7 +617,198 @@ class Correctors(Sub):
             yield dict(case, seed=0)
 
 
-SUBS = [Values(), Reject(), Correctors()]
+# ---------------------------------------------------------------------------------------------------
+class LinNet(nn.Module):
+    """residual blocks f_k(theta) = M_k theta, M_k of shape (n_k, d_k, P): the Jacobian of block k is M_k.reshape(n_k d_k, P)"""
+    def __init__(self, theta, Ms):
+        super().__init__()
+        self.theta = nn.Parameter(theta)
+        self.Ms = Ms
+
+    def forward(self, inp):
+        outs = tuple(M @ self.theta for M in self.Ms)
+        return outs[0] if len(outs) == 1 else outs
+
+
+class Capture(nn.Module):
+    """solver that records the linear system the optimizer built and proposes the zero step (so that the loss step()
+    reports is the loss at the parameters the system was linearised at)"""
+    def __init__(self):
+        super().__init__()
+        self.calls = []
+
+    def forward(self, A, b):
+        self.calls.append((A.detach().clone(), b.detach().clone()))
+        return torch.zeros(A.shape[-1], 1, dtype=A.dtype)
+
+
+class Descent(Sub):
+    """end-to-end form of "the optimiser's descent direction is the gradient of the robust loss it reports": pp.optim.GN / LM on
+    a linear residual model; what the optimizer hands to its solver (J', R' after the corrector) against the harness's
+    sum rho' J^T R, against autograd's gradient of optimizer.model.loss (RobustModel.loss = sum_i rho(|R_i|^2), no 1/2, so
+    grad loss = 2 J'^T R'), and the loss value step() returns against sum rho (harness closed forms)."""
+    name = "descent"
+    budget_s = {"quick": 400.0, "thorough": 3000.0}      # wall guard only; case counts are the budget
+    n = {"quick": 1000, "thorough": 30000}
+    CONFIGS = [(1, False, "auto"), (1, False, "FastTriggs"), (1, False, "Triggs"), (1, False, "Triggs"), (2, False, "auto"), (2, False, "Triggs"),
+               (2, True, "auto"), (2, True, "Triggs"), (2, True, "FastTriggs"), (2, True, "Triggs,FastTriggs"), (2, True, "FastTriggs,Triggs")]
+
+    def strategy(self, tier):
+        fams = ("builtin", "builtin", "pos", "mixed", "mixed", "mixed", "lin", "neg")
+
+        @st.composite
+        def s(draw):
+            dtype = draw(st.sampled_from(gen.DTYPES))
+            nb, klist, corr = self.CONFIGS[draw(st.integers(0, len(self.CONFIGS) - 1))]     # blocks, one kernel per block?, corrector(s)
+            specs = [draw(kernel_spec(fams)) for _ in range(2 if klist else 1)]
+            blocks = []
+            for bi in range(nb):
+                spec = specs[bi if klist else 0]
+                d, n = draw(st.integers(1, 6)), draw(st.integers(1, 6))
+                forced = list(draw(st.permutations(("zero", "lo", "hi"))))[:n] if RK.family(spec) == "mixed" and draw(st.booleans()) else []
+                rows, cls = _draw_rows(draw, spec, dtype, n, d, forced)
+                blocks.append({"R": rows, "cls": cls})
+            return {"kernels": specs, "dtype": dtype, "blocks": blocks, "P": draw(st.integers(1, 4)), "seed": draw(st.integers(0, 2 ** 31 - 1)),
+                    "opt": ("GN", "LM")[draw(st.integers(0, 1))], "corrector": corr, "vectorize": bool(draw(st.integers(0, 1)))}
+        return s()
+
+    def oracle(self, case, rec):
+        import pypose as pp
+        dtype, P, blocks = case["dtype"], case["P"], case["blocks"]
+        eps = tu.EPS[dtype]
+        tiny = 64 * float(np.finfo(np.dtype(dtype)).tiny)
+        specs = case["kernels"]
+        klist = len(specs) > 1
+        built = [build(sp) for sp in specs]
+        fams = sorted({RK.family(sp) for sp in specs})
+        tag = "+".join(fams)
+        rs = np.random.RandomState(case["seed"])
+        theta = tu.tens(rs.uniform(-1, 1, size=P).tolist(), dtype)
+        Ms, ys, Ract = [], [], []
+        for blk in blocks:
+            n, d = len(blk["R"]), len(blk["R"][0])
+            M = tu.tens((rs.randn(n, d, P) * 10.0 ** rs.uniform(-1, 1, size=(1, 1, P))).tolist(), dtype)
+            with torch.no_grad():
+                out = M @ theta
+                y = out - tu.tens(blk["R"], dtype)            # target such that the residual is (up to rounding of out) the drawn one
+                y = torch.where(tu.tens(blk["R"], dtype) == 0, out, y)          # exact zeros stay exact
+                Ract.append(tu.npy(out - y).reshape(n, d))                      # the residual the optimizer sees (same ops)
+            Ms.append(M); ys.append(y)
+        for bi, blk in enumerate(blocks):                    # rounding of `out - R` may push a row over the stated |R| bound
+            sp = specs[bi if klist else 0]
+            lim = TMAX.get(sp["k"], 30.0) * 1.01 * math.sqrt(_thr(sp))
+            if not (np.sqrt((Ract[bi] ** 2).sum(1)) <= lim).all():
+                rec.discard_case("rounded residual outside |R| <= tmax sqrt(T)")
+        net = LinNet(theta.clone(), Ms)
+        kern = [m for m, _ in built] if klist else built[0][0]
+        if case["corrector"] == "auto":
+            corr = None
+        else:
+            names = case["corrector"].split(",")
+            cl = [getattr(ppc, names[i % len(names)])(built[i][0]) for i in range(len(built))]
+            corr = cl if klist else cl[0]
+        cap = Capture()
+        target = ys[0] if len(blocks) == 1 else ys
+        dummy = torch.zeros(1, dtype=tu.TD[dtype])
+        with _sut(rec, case["opt"], tag):
+            if case["opt"] == "GN":
+                opt = pp.optim.GN(net, solver=cap, kernel=kern, corrector=corr, vectorize=case["vectorize"])
+            else:
+                opt = pp.optim.LM(net, solver=cap, strategy=pp.optim.strategy.Constant(damping=1e-6), kernel=kern, corrector=corr,
+                                  vectorize=case["vectorize"], reject=0, min=1e-30, max=1e32)
+            loss = opt.step(dummy, target=target)
+            with torch.enable_grad():
+                L = opt.model.loss(dummy, target)
+                gL = torch.autograd.grad(L, net.theta, allow_unused=True)[0]
+        gL = np.zeros(P) if gL is None else tu.npy(gL).reshape(P)
+        if not rec.check(len(cap.calls) == 1 and bool(torch.equal(net.theta.detach(), theta)), "protocol:" + case["opt"],
+                         "%s called the solver %d times / moved the parameters on a zero step" % (case["opt"], len(cap.calls))):
+            return
+        A, b = (tu.npy(t) for t in cap.calls[0])
+        # ---- the harness's reference: sum_i rho'(|R_i|^2) J_i^T R_i, sum_i rho(|R_i|^2) --------------------------------------
+        N = sum(r.size for r in Ract)
+        g_ref, g_tol, Lref, Ltol, sabs, rcls_all = np.zeros(P), np.zeros(P), 0.0, 0.0, np.zeros(P), []
+        for bi, blk in enumerate(blocks):
+            sp, (_, ref) = specs[bi if klist else 0], built[bi if klist else 0]
+            Rn, Jn = Ract[bi], tu.npy(Ms[bi])
+            rr = row_refs(ref, sp, Rn, dtype)
+            g, t = grad_ref(rr, Rn, Jn, eps, tiny)
+            g_ref += g; g_tol += t
+            rn, jn = np.sqrt((Rn ** 2).sum(1)), np.sqrt((Jn ** 2).sum(1))
+            sabs += np.einsum("i,i,ip->p", rr["r1"], rn, jn)
+            Lref += float(rr["rho"].sum())
+            Ltol += float((VAL_C * eps * (np.abs(rr["rho"]) + ref.vscale + rr["x"] * (1 + rr["r1"]))).sum()) + N * eps * float(np.abs(rr["rho"]).sum())
+            rcls_all += rr["cls"]
+            rec.label(sp["k"], RK.family(sp), *("row:" + c for c in sorted(set(rr["cls"]))))
+        rec.label(dtype, case["opt"], "corrector:" + case["corrector"], "blocks:%d" % len(blocks), "kernels:%s" % ("list" if klist else "single"),
+                  "vectorize:%s" % case["vectorize"])
+        if {"zero", "pos", "nonpos"} <= set(rcls_all):
+            rec.nt((tuple(sp["k"] for sp in specs), dtype, tuple(sorted(rcls_all))[:12], case["opt"], case["corrector"], P, len(blocks)))
+        Ltol += tiny
+        key = "%s:%s:%s" % (case["opt"], tag, dtype)
+        # ---- (1) what the optimizer solves with ------------------------------------------------------------------------------
+        if case["opt"] == "GN":          # solver(A = J', b = -R')
+            if not rec.check(A.shape == (N, P) and b.shape == (N, 1), "system_shape:GN", "GN handed A %s, b %s to the solver for %d residuals, %d parameters"
+                             % (A.shape, b.shape, N, P)):
+                return
+            g_sol, tol_sol = -(A.T @ b).reshape(P), g_tol
+        else:                            # solver(A = J'^T J' (1 + damping), b = -J'^T R'): the product is formed in the dtype
+            if not rec.check(A.shape == (P, P) and b.shape == (P, 1), "system_shape:LM", "LM handed A %s, b %s to the solver for %d parameters"
+                             % (A.shape, b.shape, P)):
+                return
+            g_sol, tol_sol = -b.reshape(P), g_tol + (N + 2) * eps * sabs
+        e1 = np.abs(g_sol - g_ref) / tol_sol
+        rec.notes["r_solved:" + dtype] = max(rec.notes.get("r_solved:" + dtype, 0), float(e1.max()))
+        rec.check((e1 <= 1).all(), "solved_gradient:" + key,
+                  lambda: "%s(kernel %s, corrector %s): the solver received J'^T R' = %s, robust gradient sum rho' J^T R = %s (tol %s; rows %s)"
+                  % (case["opt"], [(sp["k"], sp["p"]) for sp in specs], case["corrector"], g_sol.tolist(), g_ref.tolist(), tol_sol.tolist(), rcls_all))
+        # ---- (2) gradient of the loss the optimizer reports: d/dtheta sum rho(|R_i|^2) = 2 sum rho' J^T R (summed in the dtype) --
+        tol_L = 2 * (g_tol + (N + 2) * eps * sabs)
+        e2 = np.abs(gL - 2 * g_ref) / tol_L
+        rec.notes["r_lossgrad:" + dtype] = max(rec.notes.get("r_lossgrad:" + dtype, 0), float(e2.max()))
+        rec.check((e2 <= 1).all(), "loss_gradient:" + key,
+                  lambda: "%s(kernel %s): autograd gradient of optimizer.model.loss = %s, 2 sum rho' J^T R = %s (tol %s)"
+                  % (case["opt"], [(sp["k"], sp["p"]) for sp in specs], gL.tolist(), (2 * g_ref).tolist(), tol_L.tolist()))
+        e3 = np.abs(gL - 2 * g_sol) / (tol_L + 2 * tol_sol)
+        rec.notes["r_descent:" + dtype] = max(rec.notes.get("r_descent:" + dtype, 0), float(e3.max()))
+        rec.check((e3 <= 1).all(), "descent_is_loss_gradient:" + key,
+                  lambda: "%s(kernel %s, corrector %s): the system solved has J'^T R' = %s but the gradient of the reported loss is 2 x %s"
+                  % (case["opt"], [(sp["k"], sp["p"]) for sp in specs], case["corrector"], g_sol.tolist(), (gL / 2).tolist()))
+        # ---- (3) the loss it reports ------------------------------------------------------------------------------------------
+        for nm, val in (("step", float(loss)), ("model.loss", float(L))):
+            e4 = abs(val - Lref) / Ltol if math.isfinite(val) else math.inf
+            rec.notes["r_loss:" + dtype] = max(rec.notes.get("r_loss:" + dtype, 0), e4)
+            rec.check(e4 <= 1, "loss_value:" + key, lambda: "%s(kernel %s): %s reports the loss %r, sum_i rho(|R_i|^2) = %r (tol %.3g)"
+                      % (case["opt"], [(sp["k"], sp["p"]) for sp in specs], nm, val, Lref, Ltol))
+
+    def valid(self, case):
+        return all(RK.in_domain(sp) for sp in case["kernels"]) and all(len(b["R"]) >= 1 for b in case["blocks"])
+
+    def simplify(self, case):
+        if len(case["blocks"]) > 1 and len(case["kernels"]) == 1:
+            for i in range(len(case["blocks"])):
+                yield dict(case, blocks=[case["blocks"][i]])
+        for bi, blk in enumerate(case["blocks"]):
+            n, d = len(blk["R"]), len(blk["R"][0])
+            for i in range(n):
+                if n > 1:
+                    nb = {"R": blk["R"][:i] + blk["R"][i + 1:], "cls": blk["cls"][:i] + blk["cls"][i + 1:]}
+                    yield dict(case, blocks=case["blocks"][:bi] + [nb] + case["blocks"][bi + 1:])
+            for j in range(d):
+                if d > 1:
+                    nb = {"R": [r[:j] + r[j + 1:] for r in blk["R"]], "cls": blk["cls"]}
+                    yield dict(case, blocks=case["blocks"][:bi] + [nb] + case["blocks"][bi + 1:])
+        if case["P"] > 1:
+            yield dict(case, P=1)
+        if case["opt"] != "GN":
+            yield dict(case, opt="GN")
+        if case["dtype"] == "float32":
+            yield dict(case, dtype="float64")
+        if case["seed"] != 0:
+            yield dict(case, seed=0)
+
+
+SUBS = [Values(), Reject(), Correctors(), Descent()]
 
 # Triggs.compute_grads differentiates rho' again with autograd.grad; for a kernel that is linear in x (built-in
 # Scale, user identity / c*x) rho' does not depend on x and autograd raises instead of returning rho''=0.
